@@ -2,7 +2,7 @@
    change the shape of the statement.  Statements only; every proof is [exact <lemma>]. *)
 From Coq Require Import List NArith ZArith Bool.
 Import ListNotations.
-From SAV.sql Require Import Literal LiteralStrProofs LiteralNumProofs LiteralListProofs.
+From SAV.sql Require Import Literal LiteralStrProofs LiteralNumProofs LiteralListProofs LiteralPyfmtProofs.
 Open Scope N_scope.
 
 (* ------------------------------------------------------------------ strings *)
@@ -72,6 +72,45 @@ Theorem c05_process_expanding_guarded : forall l r lits,
   process_expanding_be l r lits = render_in_list_be l r lits.
 Proof. exact process_expanding_guarded. Qed.
 Print Assumptions c05_process_expanding_guarded.
+
+(* ------------------------------------------------------------------ the compiler's %(name)s passes *)
+
+(* qmark / format paramstyles (the default SQLite dialect): _process_positional rewrites every
+   %(name)s of the finished text into the placeholder - with literal_binds the literals are part of
+   that text: the value  %(x)s  is rendered  '?' *)
+Theorem c05_positional_pass_refuted : exists s,
+  lex_str (server SQLite (default_flags SQLite))
+          (pysub [63] 0 (render_string SQLite (default_flags SQLite) false s)) = Some ([63], []) /\
+  s <> [63].
+Proof. exact positional_pass_refuted. Qed.
+Print Assumptions c05_positional_pass_refuted.
+
+Theorem c05_positional_pass_guarded : forall d fl n s ph,
+  nopl s = true -> pysub ph 0 (render_string d fl n s) = render_string d fl n s.
+Proof. exact positional_pass_guarded. Qed.
+Print Assumptions c05_positional_pass_guarded.
+
+(* the complete pipeline for a value without "%(": processor, dialect override, compiler pass, driver,
+   server lexer *)
+Theorem c05_string_literal_roundtrip_after_positional_pass_guarded : forall d fl n s ph rest,
+  (n = true -> d = MSSQL) -> no_quote_prefix rest -> nopl s = true ->
+  lex_str (server d fl) (driver fl (pysub ph 0 (render_string d fl n s) ++ rest)) = Some (s, driver fl rest).
+Proof. exact string_literal_roundtrip_after_pass. Qed.
+Print Assumptions c05_string_literal_roundtrip_after_positional_pass_guarded.
+
+(* paramstyle numeric / numeric_dollar (asyncpg): the  %(name)s -> positional marker  pass; a value
+   containing  %(x_1)s  keeps that pattern inside its literal (KeyError, or the marker of parameter
+   x_1 lands in the string) *)
+Theorem c05_numeric_paramstyle_refuted : exists s,
+  find_pyformat (render_string PG (mkFlags (dp_of_paramstyle NumericDollar) false) false s)
+  = Some [120; 95; 49].
+Proof. exact pyformat_refuted. Qed.
+Print Assumptions c05_numeric_paramstyle_refuted.
+
+Theorem c05_numeric_paramstyle_guarded : forall d fl n s,
+  nopl s = true -> find_pyformat (render_string d fl n s) = None.
+Proof. exact pyformat_guarded. Qed.
+Print Assumptions c05_numeric_paramstyle_guarded.
 
 (* ------------------------------------------------------------------ integers *)
 
@@ -172,6 +211,8 @@ Example c05_ex_in_list :
   = [39; 97; 44; 32; 98; 39; 44; 32; 39; 39; 39; 39].
 Proof. vm_compute. reflexivity. Qed.
 Example c05_ex_guard_process_expanding : forallb no_sep [[39; 97; 39]; [39; 44; 39]] = true.
+Proof. vm_compute. reflexivity. Qed.
+Example c05_ex_nopl : nopl [37; 32; 40; 97; 41; 115; 37] = true.
 Proof. vm_compute. reflexivity. Qed.
 Example c05_ex_numeric :
   numeric_process KStr [45; 49; 46; 53; 48; 101; 43; 51] = Ok [45; 49; 46; 53; 48; 101; 43; 51] /\
